@@ -116,6 +116,7 @@ func (p *parser) parseStatement() ast.Statement {
 		for _, value := range p.scope.labels {
 			if label == value {
 				p.error(identifier.Idx0(), "Label '%s' already exists", label)
+				break // one error per label, not one per enclosing duplicate
 			}
 		}
 		var labelComments []*ast.Comment
